@@ -41,6 +41,7 @@ func TestVerifReplayC11(t *testing.T) {
 			for _, status := range []int{0, 201, 404} {
 				for _, withEH := range []bool{false, true} {
 					for _, ehWritesHeader := range []bool{false, true} {
+					for _, boom := range []error{errors.New("boom"), fmt.Errorf("fetch: %w", context.Canceled), Error{Err: context.DeadlineExceeded, FileName: "x.templ", Line: 1, Col: 1}} {
 						doc := ""
 						for i := 0; i < chunks; i++ {
 							doc += fmt.Sprintf("<p>chunk%d</p>", i)
@@ -49,14 +50,14 @@ func TestVerifReplayC11(t *testing.T) {
 						comp := ComponentFunc(func(ctx context.Context, w io.Writer) error {
 							for i := 0; i < chunks; i++ {
 								if fails && i == failAfter {
-									return errors.New("boom")
+									return boom
 								}
 								if _, err := io.WriteString(w, fmt.Sprintf("<p>chunk%d</p>", i)); err != nil {
 									return err
 								}
 							}
 							if fails && failAfter == chunks {
-								return errors.New("boom")
+								return boom
 							}
 							return nil
 						})
@@ -77,7 +78,7 @@ func TestVerifReplayC11(t *testing.T) {
 						h := Handler(comp, opts...)
 						w := &verifRW{hdr: http.Header{}}
 						h.ServeHTTP(w, httptest.NewRequest("GET", "/", nil))
-						cfg := fmt.Sprintf("chunks=%d failAfter=%d status=%d errorHandler=%v ehWritesHeader=%v", chunks, failAfter, status, withEH, ehWritesHeader)
+						cfg := fmt.Sprintf("chunks=%d failAfter=%d (error %v) status=%d errorHandler=%v ehWritesHeader=%v", chunks, failAfter, boom, status, withEH, ehWritesHeader)
 						body := string(w.body)
 						if !fails {
 							want := 200
@@ -93,7 +94,7 @@ func TestVerifReplayC11(t *testing.T) {
 						// failure: never document bytes, never the success status with an error body
 						wantBody, wantStatus := "templ: failed to render template\n", 500
 						if withEH {
-							wantBody, wantStatus = "EH:boom", 200
+							wantBody, wantStatus = "EH:"+boom.Error(), 200
 							if ehWritesHeader {
 								wantStatus = 502
 							}
@@ -102,6 +103,7 @@ func TestVerifReplayC11(t *testing.T) {
 							fmt.Printf("REPLAY-CONFIRMED %s: failed render answered status %d body %q (events %v), want %d %q\n", cfg, w.status, body, w.events, wantStatus, wantBody)
 							return
 						}
+					}
 					}
 				}
 			}
@@ -117,7 +119,7 @@ func TestVerifReplayC11(t *testing.T) {
 		b.WriteString("stale")
 		ReleaseBuffer(b)
 	}
-	fmt.Println("REPLAY-NOT-REPRODUCED bounded search over chunk counts 0..3 x fault points x status {0,201,404} x error handler configurations")
+	fmt.Println("REPLAY-NOT-REPRODUCED bounded search over chunk counts 0..3 x fault points x 3 kinds of error (plain, wrapping context.Canceled, templ.Error with a deadline) x status {0,201,404} x error handler configurations")
 }
 `
 
